@@ -252,7 +252,7 @@ func (s *ServantProxy) doInvoke(ctx context.Context, msg *Message, timeout time.
 		atomic.AddInt32(&s.queueLen, -1)
 		adp.resp.Delete(msg.Req.IRequestId)
 	}()
-	if err := adp.Send(msg.Req); err != nil {
+	if err := adp.SendContext(ctx, msg.Req); err != nil {
 		adp.failAdd()
 		return err
 	}
